@@ -48,6 +48,7 @@ type CoreOp struct {
 type CoreWorld struct {
 	Configs     []string `json:"configs"` // YAML documents; Configs[0] is the initial configuration
 	ResDelayOn  bool     `json:"resdelay"` // reservation delay crossed immediately (reservations happen)
+	ResWaitOn   bool     `json:"reswait"`  // reservation wait timeout crossed immediately
 	PredDeny    int      `json:"preddeny"` // the predicate plugin denies (key,node) pairs with hash%100 < PredDeny
 	Seed        uint64   `json:"seed"`
 }
